@@ -231,8 +231,11 @@ func (syncService *SyncService[H]) WriteToStoreAndBroadcast(ctx context.Context,
 	return nil
 }
 
-func (syncService *SyncService[H]) isInitialized() bool {
-	return syncService.store.Height() > 0
+// isInitialized reports whether the store has a head. It asks for the head rather than for the height: the
+// height of a store written by an earlier run is only known once the head has been read from disk.
+func (syncService *SyncService[H]) isInitialized(ctx context.Context) bool {
+	_, err := syncService.store.Head(ctx)
+	return err == nil
 }
 
 // Start is a part of Service interface.
@@ -244,6 +247,11 @@ func (syncService *SyncService[H]) Start(ctx context.Context) error {
 
 	if err := syncService.prepareSyncer(ctx); err != nil {
 		return err
+	}
+	if syncService.syncerStatus.isStarted() {
+		// the store has a head from an earlier run: there is nothing to fetch, and initializing it again
+		// would either fail ("store already initialized") or put its head back to the initial height
+		return nil
 	}
 
 	return syncService.setFirstAndStart(ctx, peerIDs)
@@ -312,7 +320,7 @@ func (syncService *SyncService[H]) prepareSyncer(ctx context.Context) error {
 		return err
 	}
 
-	if syncService.isInitialized() {
+	if syncService.isInitialized(ctx) {
 		if err := syncService.StartSyncer(ctx); err != nil {
 			return err
 		}
